@@ -721,6 +721,10 @@ class InterfaceClass(_InterfaceClassBase):
         # subclass or produced for ``interfacemethod``.
         if cls.__adapt__ is not InterfaceBase.__adapt__:
             cls._CALL_CUSTOM_ADAPT = 1
+        # Likewise the C ``__adapt__`` inlines the provided-check unless
+        # the exact type says that ``providedBy`` is overridden.
+        if cls.providedBy is not Specification.providedBy:
+            cls._CALL_CUSTOM_PROVIDEDBY = 1
 
     def __new__(
         cls,
